@@ -22,12 +22,23 @@
 (*      pr : key    -> consensus-params record [lhc, params]]               *)
 (* and every operator returns the new store and/or the result of the call.  *)
 (* MC_CStateStore instantiates this module TWICE over the same chain of      *)
-(* states: once "as specified" and once "as implemented" (see the four       *)
-(* switches below), checks the property on the first, and prints the         *)
-(* results both predict for every read call so that the Go driver            *)
-(* (harness/cstore) can (1) hold the real store to the specification and     *)
-(* (2) tell a deviation that the as-implemented model explains from one it   *)
-(* does not.                                                                *)
+(* states: once "as specified" and once "as implemented" (see the switches   *)
+(* below), checks the property on the first, and prints the results both     *)
+(* predict for every read call so that the Go driver (harness/cstore) can    *)
+(* (1) hold the real store to the specification and (2) tell a deviation     *)
+(* that the as-implemented model explains from one it does not.              *)
+(* History: the code AS FOUND (all switches FALSE) violated C14 in four      *)
+(* ways, each reproduced on the real code by the driver and since repaired:  *)
+(*   - records keyed by ValidatorSet.Hash(): Load returned Validators and     *)
+(*     LastValidators with NextValidators' priorities and proposer (already   *)
+(*     for the genesis state alone), and worse after a head rewind;           *)
+(*   - PruneState could delete the only record of a membership that returns   *)
+(*     later (Load at the head panics) or that a kept lower state needs;      *)
+(*   - LoadConsensusParams dereferenced a missing per-height record;          *)
+(*   - Load at height 0 joined the genesis BLOCK's id and state root although *)
+(*     the genesis STATE was saved with zero values.                          *)
+(* The repaired code is the instance PerHeightRecords, LookupsTotal,          *)
+(* GenesisAsSaved = TRUE (KeyBindsPriorities, PruneByReference stay FALSE).   *)
 (*                                                                         *)
 (* A validator set is a record [v, prop]: v the sequence of [a, p, prio] in  *)
 (* the code's order (ValidatorSet.tla), prop the address held by the         *)
@@ -57,8 +68,19 @@ CONSTANTS
                        \*        genesis or the state at `to` refers to the same key
   LookupsTotal,        \* TRUE  (as specified): LoadConsensusParams of a height without a record is an error
                        \* FALSE (as implemented): it dereferences the missing record (panic)
-  GenesisAsSaved       \* TRUE  (as specified): Load at height 0 returns the zero block id / app hash that were saved
+  GenesisAsSaved,      \* TRUE  (as specified): Load at height 0 returns the zero block id / app hash that were saved
                        \* FALSE (as implemented): it joins the genesis BLOCK's id and state root
+  PerHeightRecords     \* FALSE (as specified, and the code as found).
+                       \* TRUE  models the REPAIR of the code (commit 83d442d; only meaningful with KeyBindsPriorities =
+                       \*        FALSE): the hash-addressed records stay as they are and every set is ALSO written
+                       \*        under (hash, height the set is in force at); reads prefer that record and fall back
+                       \*        to the hash-addressed one; PruneState drops the per-height records of pruned
+                       \*        heights that no remaining state refers to.  MC_CStateStore checks that this design
+                       \*        satisfies the invariants of C14 (ImplInv, ImplUpgradeInv).
+  , UpgradeAt          \* with PerHeightRecords: the first height saved by the repaired code (0: the whole database;
+                       \* k > 0: heights below k were saved by the code as found, i.e. without per-height records —
+                       \* "records already in a database must stay loadable")
+ASSUME ~(KeyBindsPriorities /\ PerHeightRecords)
 
 NilSet == [v |-> <<>>, prop |-> 0]
 IsNil(s) == s.v = <<>>
@@ -112,6 +134,8 @@ UpdateState(s, chs, newParams) ==
 Members(s) == [i \in 1..Len(s.v) |-> <<s.v[i].a, s.v[i].p>>]
 PrioSeq(s) == [i \in 1..Len(s.v) |-> s.v[i].prio]
 VKey(s, lhc) == IF KeyBindsPriorities THEN <<Members(s), <<PrioSeq(s), s.prop, lhc>>>> ELSE <<Members(s), <<>>>>
+\* the repair's additional key: keccak(Hash() || height) — the membership part of the hash key plus the height
+AtKey(hk, height) == <<hk[1], <<height>>>>
 \* params records: the code's key is the last 32 bytes of the encoded record — assumed injective on
 \* (params, lhpc) (true for every value the driver uses; not for arbitrarily large field values)
 PKey(params, lhpc) == <<params, lhpc>>
@@ -135,9 +159,13 @@ Save(store, s) ==
       all == s.h = 0 \/ KeyBindsPriorities
       vr0 == IF all THEN Put(Put(store.vr, k(s.last), rec(s.last)), k(s.vals), rec(s.vals)) ELSE store.vr
       vr1 == Put(vr0, k(s.next), rec(s.next))
+      \* the repair: Validators of the genesis state is the set of height 1, NextValidators of state h that of h + 2
+      vr2 == IF ~(PerHeightRecords /\ s.h >= UpgradeAt) THEN vr1
+             ELSE LET a == IF s.h = 0 THEN Put(vr1, AtKey(k(s.vals), 1), rec(s.vals)) ELSE vr1
+                  IN Put(a, AtKey(k(s.next), s.h + 2), rec(s.next))
       pk == PKey(s.params, s.lhpc)
   IN [st |-> Put(store.st, s.h, [lk |-> k(s.last), vk |-> k(s.vals), nk |-> k(s.next), pk |-> pk]),
-      vr |-> vr1,
+      vr |-> vr2,
       pr |-> Put(store.pr, pk, [lhc |-> s.lhpc, params |-> s.params])]
 
 (***************************** loadStateAtHeight *******************************)
@@ -147,9 +175,13 @@ Save(store, s) ==
 (*   "ok"    with the state assembled from the record, the three set records, the params record, the      *)
 (*           block meta and the app hash of that height.                                                  *)
 Refs(r) == {r.lk, r.vk, r.nk}
+\* the key under which the record for reference hk, a set in force at `height`, is found (readValidatorsInfoAt of the
+\* repair: the per-height record if there is one, else the hash-addressed record)
+Resolve(store, hk, height) == IF PerHeightRecords /\ HasKey(store.vr, AtKey(hk, height)) THEN AtKey(hk, height) ELSE hk
 LoadAt(store, h) ==
   IF ~HasKey(store.st, h) THEN [res |-> "none"]
-  ELSE LET r == store.st[h]
+  ELSE LET r0 == store.st[h]
+           r == [r0 EXCEPT !.lk = Resolve(store, @, h), !.vk = Resolve(store, @, h + 1), !.nk = Resolve(store, @, h + 2)]
            lastOK == h = 0 \/ (HasKey(store.vr, r.lk) /\ ~IsNil(store.vr[r.lk].set))
            valsOK == HasKey(store.vr, r.vk) /\ ~IsNil(store.vr[r.vk].set)
            nextOK == HasKey(store.vr, r.nk) /\ ~IsNil(store.vr[r.nk].set)
@@ -171,7 +203,7 @@ LoadAt(store, h) ==
 (*   "nilset"   the record holds no set (height 0: nobody signs the genesis block)                         *)
 LoadValidators(store, h) ==
   IF ~HasKey(store.st, h) THEN [res |-> "nostate", set |-> NilSet]
-  ELSE LET k == store.st[h].lk
+  ELSE LET k == Resolve(store, store.st[h].lk, h)
        IN IF ~HasKey(store.vr, k) THEN [res |-> "novalset", set |-> NilSet]
           ELSE IF IsNil(store.vr[k].set) THEN [res |-> "nilset", set |-> NilSet]
           ELSE [res |-> "ok", set |-> store.vr[k].set]
@@ -198,7 +230,10 @@ Prune(store, from, to) ==
       spared == (IF HasKey(st1, 0) THEN Refs(st1[0]) ELSE {}) \cup (IF HasKey(st1, to) THEN Refs(st1[to]) ELSE {})
       needed == UNION {Refs(st1[i]) : i \in DOMAIN st1}
       del == IF PruneByReference THEN (DOMAIN store.vr) \ needed ELSE cand \ spared
-  IN [store |-> [st |-> st1, vr |-> Drop(store.vr, del), pr |-> store.pr], n |-> Cardinality(gone)]
+      \* the repair: the per-height record of the set of height i serves the states i-2 (next), i-1 (current), i (last)
+      delAt == IF ~PerHeightRecords THEN {}
+               ELSE {AtKey(store.st[i].lk, i) : i \in {j \in gone : (j < 2 \/ ~HasKey(st1, j - 2)) /\ ~HasKey(st1, j - 1)}}
+  IN [store |-> [st |-> st1, vr |-> Drop(store.vr, del \cup delAt), pr |-> store.pr], n |-> Cardinality(gone)]
 
 (******************************* what C14 states *******************************)
 (* chain: the sequence of states handed to Save, chain[h + 1] for height h.                                *)
